@@ -58,7 +58,8 @@ type SQLTx struct {
 	lastInsertedPKs  map[string]int64 // last inserted PK by table name
 	firstInsertedPKs map[string]int64 // first inserted PK by table name
 
-	txHeader *store.TxHeader // header is set once tx is committed
+	txHeader  *store.TxHeader // header is set once tx is committed
+	committed bool            // Commit succeeded (a cancelled transaction is closed but not committed)
 
 	onCommittedCallbacks []onCommittedCallback
 
@@ -215,6 +216,7 @@ func (sqlTx *SQLTx) Commit(ctx context.Context) error {
 	if err != nil && !errors.Is(err, store.ErrNoEntriesProvided) {
 		return err
 	}
+	sqlTx.committed = true
 
 	// DDL committed: the cached catalog is now stale; clear it so the next
 	// read-only transaction reloads the schema from the store.
